@@ -328,6 +328,7 @@ func (p *park) hit() {
 
 var (
 	hookMu      sync.Mutex
+	startParks  = map[*workerpool.WorkerPool]*park{}
 	submitParks = map[*workerpool.WorkerPool]*park{}
 	popParks    = map[any]*park{}
 )
@@ -341,6 +342,14 @@ func installHooks() {
 			p.hit()
 		}
 	}
+	workerpool.VerifStartHook = func(w *workerpool.WorkerPool) {
+		hookMu.Lock()
+		p := startParks[w]
+		hookMu.Unlock()
+		if p != nil {
+			p.hit()
+		}
+	}
 	syncutils.VerifPopOrWaitHook = func(stack any) {
 		hookMu.Lock()
 		p := popParks[stack]
@@ -349,6 +358,15 @@ func installHooks() {
 			p.hit()
 		}
 	}
+}
+
+func parkStart(w *workerpool.WorkerPool) *park {
+	p := newPark()
+	hookMu.Lock()
+	startParks[w] = p
+	hookMu.Unlock()
+
+	return p
 }
 
 func parkSubmit(w *workerpool.WorkerPool) *park {
@@ -389,6 +407,7 @@ func parkPop(stack any) *park {
 
 func unpark(w *workerpool.WorkerPool) {
 	hookMu.Lock()
+	delete(startParks, w)
 	delete(submitParks, w)
 	delete(popParks, any(w.Queue))
 	hookMu.Unlock()
